@@ -117,6 +117,13 @@ def cases(tier, seed):
         for solver in [s_ for s_ in solvers[backend] if s_ in ('euler', 'heun')]:
             out.append({'kind': 'traj', 'name': 'input_sub3', 'spec': INP, 'backend': backend, 'solver': solver,
                         'vectorize': backend != 'fortran', 'prec': 'float64', 'input': 'a/io/u', 'sub': 3})
+            # two input arrays (one step counter / time base for both)
+            out.append({'kind': 'traj', 'name': 'two_inputs', 'spec': INP, 'backend': backend, 'solver': solver,
+                        'vectorize': backend != 'fortran', 'prec': 'float64', 'input': ['a/io/u', 'b/io/u'], 'sub': 1})
+        if backend != 'fortran':
+            # one column per node, adaptive solver (row-wise interpolation helper of the backend)
+            out.append({'kind': 'traj', 'name': 'input_columns', 'spec': INP, 'backend': backend, 'solver': 'scipy',
+                        'vectorize': True, 'prec': 'float64', 'input': 'all/io/u', 'sub': 1, 'columns': 2})
     for edge_kind in ('alg', 'dyn', None):
         for W in ([[0.0, 2.0], [-0.5, 1.0]], [[1.0, 0.0], [3.0, 2.0]]):
             out.append({'kind': 'pop', 'backend': 'jax', 'pops': {'e': 2, 'i': 2},
@@ -176,8 +183,14 @@ def run_case(case):
         kw = dict(simulation_time=8 * DT, step_size=DT, sampling_step_size=DT, outputs=dict(outs), solver=solver,
                   backend=backend, vectorize=case['vectorize'], verbose=False, float_precision='float64', clear=True)
         if case.get('input'):
-            kw.update(simulation_time=12 * DT, sampling_step_size=case['sub'] * DT,
-                      inputs={case['input']: 0.05 * np.arange(12, dtype=float) ** 2 - 0.3 * np.arange(12) + 0.2})
+            base = 0.05 * np.arange(12, dtype=float) ** 2 - 0.3 * np.arange(12) + 0.2
+            if isinstance(case['input'], list):
+                inp = {p_: base * (1.0 + 0.5 * j) + 0.1 * j for j, p_ in enumerate(case['input'])}
+            elif case.get('columns'):
+                inp = {case['input']: np.stack([base * (1.0 + 0.5 * j) + 0.1 * j for j in range(case['columns'])], axis=1)}
+            else:
+                inp = {case['input']: base}
+            kw.update(simulation_time=12 * DT, sampling_step_size=case['sub'] * DT, inputs=inp)
         if case.get('loose'):
             kw.update(simulation_time=2.0, step_size=0.01, sampling_step_size=0.1)
         elif solver in ('scipy', 'diffrax'):
